@@ -453,6 +453,31 @@ pub fn step_net(st: &mut NetSt, args: &[&str]) -> String {
             let left = s.world.lock().wire.len();
             format!("delivered={delivered} dropped={dropped} dup={dups} left={left} d=[{}]", log.join(","))
         }
+        // put a crafted datagram on the wire (a peer that is not one of our sockets' stacks, or a late duplicate)
+        ["raw", from, to, hx] => match (p16(from), p16(to), crate::util::hex_decode(hx)) {
+            (Some(from), Some(to), Some(bytes)) => {
+                s.world.lock().wire.push(Dgram { from, to, bytes });
+                "ok".into()
+            }
+            _ => "bad-op".into(),
+        },
+        // move the first k datagrams from the wire into their sockets' receive queues WITHOUT waking anybody:
+        // they are found together by whatever wakes the dispatcher next
+        ["stage", k, rest @ ..] => {
+            let k = k.parse::<usize>().unwrap_or(0);
+            let only_to = kv(rest).get("to").and_then(|v| v.parse::<u16>().ok());
+            let mut w = s.world.lock();
+            let mut log = Vec::new();
+            for _ in 0..k {
+                let Some(idx) = w.wire.iter().position(|d| only_to.map_or(true, |p| d.to == p)) else {
+                    break;
+                };
+                let d = w.wire.remove(idx);
+                log.push(summary(&d));
+                w.inbox.entry(d.to).or_default().push_back((addr_of(d.from), d.bytes.clone()));
+            }
+            format!("staged=[{}] left={}", log.join(","), w.wire.len())
+        }
         ["adv", ns] => match ns.parse::<u64>() {
             Ok(ns) => {
                 s.rt.block_on(async {
